@@ -1,4 +1,5 @@
 import LentilVerif.Lemmas.Units
+import LentilVerif.Lemmas.Spectrum
 /-! C14 — unit conversions are consistent; `Spectrum.to` preserves integrals/values; Planck's law is unit-independent.
 `Gen.waveTo`, `Gen.fluxTo` are regenerated from lentil/radiometry.py on every run (decimal literals as exact rationals).
 Statements over an arbitrary field of characteristic 0 hold in particular over ℚ (what the driver runs) and ℝ. -/
@@ -56,6 +57,12 @@ theorem spectrum_to_wave_cocycle (s : USpec) (b c : WUnit) : toWave c (toWave b 
 theorem spectrum_to_wave_round_trip (s : USpec) (u : WUnit) : toWave s.wu (toWave u s) = s := by
   rw [spectrum_to_wave_cocycle]
   cases hv : s.vu <;> cases s <;> simp_all [toWave, waveTo_self]
+
+/-- converting the wavelength unit keeps a valid grid valid (positive, strictly increasing): the `wave` setter, which the
+model does not re-run, cannot refuse the converted grid -/
+theorem toWave_valid (s : USpec) (u : WUnit) (h : validWave s.wave = true) : validWave (toWave u s).wave = true := by
+  have hk := waveTo_pos s.wu u
+  cases hv : s.vu <;> simp only [toWave, hv] <;> exact validWave_map_mul _ _ hk h
 
 /-- flux-unit round trips restore the spectrum (well-formed, non-zero wavelengths) -/
 theorem spectrum_to_flux_round_trip (s s' s'' : USpec) (f g : FUnit) (H C : ℚ) (hH : H ≠ 0) (hC : C ≠ 0)
